@@ -142,5 +142,64 @@ func genWiring() {
 	g.line("Definition option_flags_unregistered : list (list N) := %s.", coqStrList(unregistered))
 	g.line("Definition option_flags_untagged : list (list N) := %s.", coqStrList(untagged))
 	g.line("Definition option_flags_tagged : nat := %d.", len(tagged))
+	// expires_in_sites: every call of SessionState.ExpiresIn (expiry := CreatedAt + d) in the providers and the proxy,
+	// with what precedes it in the same block: "restamped" when the statement before is <same receiver>.CreatedAtNow(),
+	// else the text of that statement.  A token lifetime counted from an OLD creation time makes a freshly refreshed
+	// session expire at once.
+	var expSites []string
+	var expFiles []string
+	pents, _ := os.ReadDir(filepath.Join(*repo, "providers"))
+	for _, e := range pents {
+		if !e.IsDir() && strings.HasSuffix(e.Name(), ".go") && !strings.HasSuffix(e.Name(), "_test.go") {
+			expFiles = append(expFiles, "providers/"+e.Name())
+		}
+	}
+	expFiles = append(expFiles, "oauthproxy.go", "pkg/middleware/stored_session.go")
+	sort.Strings(expFiles)
+	for _, frel := range expFiles {
+		f := parse(frel)
+		if f == nil {
+			continue
+		}
+		ftxt := func(n ast.Node) string { return strings.Join(strings.Fields(exprText(frel, n)), "") }
+		for _, d := range f.Decls {
+			fd, ok := d.(*ast.FuncDecl)
+			if !ok || fd.Body == nil {
+				continue
+			}
+			ast.Inspect(fd.Body, func(n ast.Node) bool {
+				blk, ok := n.(*ast.BlockStmt)
+				if !ok {
+					return true
+				}
+				for i, st := range blk.List {
+					es, ok := st.(*ast.ExprStmt)
+					if !ok {
+						continue
+					}
+					c, ok := es.X.(*ast.CallExpr)
+					if !ok {
+						continue
+					}
+					sel, ok := c.Fun.(*ast.SelectorExpr)
+					if !ok || sel.Sel.Name != "ExpiresIn" {
+						continue
+					}
+					recv := ftxt(sel.X)
+					before := "<first statement of its block>"
+					if i > 0 {
+						before = ftxt(blk.List[i-1])
+						if before == recv+".CreatedAtNow()" {
+							before = "restamped"
+						}
+					}
+					expSites = append(expSites, frel+"|"+fd.Name.Name+"|"+before)
+				}
+				return true
+			})
+		}
+	}
+	g.line("(* every X.ExpiresIn(d) call with the statement before it (\"restamped\" = X.CreatedAtNow()) *)")
+	g.line("Definition expires_in_sites : list (list N) := %s.", coqStrList(expSites))
 	g.write("Wiring.v")
 }
